@@ -34,21 +34,21 @@ type wcStep struct {
 	Len   int      `json:"len"`
 }
 type wcScen struct {
-	Nchan   int      `json:"nchan"`
-	Proj    []int    `json:"proj"`
-	Npre    int      `json:"npre"`
-	Nsamp   int      `json:"nsamp"`
-	Nbases  int      `json:"nbases"`
-	Rows    int      `json:"rows"`
-	Cols    int      `json:"cols"`
-	SubDiv  int      `json:"subdiv"`
-	Frame0  int64    `json:"frame0"`
-	Time0   int64    `json:"time0"` // unix ns of the first sample
-	Rate    float64  `json:"rate"`
-	Signed  bool     `json:"signed"`
-	Steps   []wcStep `json:"steps"`
-	Origin  string   `json:"origin"`
-	EMVar   bool     `json:"emvar"` // edge-multi trigger in variable-length mode: records shorter than nsamp are published
+	Nchan  int      `json:"nchan"`
+	Proj   []int    `json:"proj"`
+	Npre   int      `json:"npre"`
+	Nsamp  int      `json:"nsamp"`
+	Nbases int      `json:"nbases"`
+	Rows   int      `json:"rows"`
+	Cols   int      `json:"cols"`
+	SubDiv int      `json:"subdiv"`
+	Frame0 int64    `json:"frame0"`
+	Time0  int64    `json:"time0"` // unix ns of the first sample
+	Rate   float64  `json:"rate"`
+	Signed bool     `json:"signed"`
+	Steps  []wcStep `json:"steps"`
+	Origin string   `json:"origin"`
+	EMVar  bool     `json:"emvar"` // edge-multi trigger in variable-length mode: records shorter than nsamp are published
 }
 
 func crc(b []byte) int { return int(crc32.ChecksumIEEE(b) & 0x3fffffff) }
@@ -494,6 +494,7 @@ func wcRun(id int, sc *wcScen) {
 	vTakeRecords()
 
 	dirIdx := map[string]int{}
+	dirCounter := 0
 	today := time.Now().Format("20060102")
 	listDirs := func() map[string]bool {
 		m := map[string]bool{}
@@ -510,7 +511,8 @@ func wcRun(id int, sc *wcScen) {
 		if ws.FilenamePattern != "" {
 			dir = filepath.Dir(ws.FilenamePattern)
 			if _, ok := dirIdx[dir]; !ok {
-				dirIdx[dir] = len(dirIdx) + 1
+				dirCounter++
+				dirIdx[dir] = dirCounter
 			}
 			d = dirIdx[dir]
 		}
@@ -535,6 +537,29 @@ func wcRun(id int, sc *wcScen) {
 				}
 			}()
 			switch st.K {
+			case "rmrun":
+				// the operator removes the directory of the earliest run of the day that is not being written
+				ws := ds.ComputeWritingState()
+				cur := ""
+				if ws.FilenamePattern != "" {
+					cur = filepath.Dir(ws.FilenamePattern)
+				}
+				victim := ""
+				for d := range dirIdx {
+					if d != cur && (victim == "" || d < victim) {
+						victim = d
+					}
+				}
+				if victim != "" {
+					os.RemoveAll(victim)
+					vEmit(vmap{"ev": "RmRun", "dir": dirIdx[victim]})
+					delete(dirIdx, victim)
+					for p := range allPatterns {
+						if filepath.Dir(p) == victim {
+							delete(allPatterns, p)
+						}
+					}
+				}
 			case "req":
 				before := listDirs()
 				req := st.Req
@@ -683,7 +708,8 @@ func wcRandom(rng interface{ Intn(int) int }, i int) *wcScen {
 	sc.Frame0 = frames[rng.Intn(len(frames))]
 	times := []int64{0, 1, 1700000000123456789, 4102444800000000000, 9000000000000000000}
 	sc.Time0 = times[rng.Intn(len(times))]
-	rates := []float64{1000, 12500, 244140.625, 1e6, 3.3}
+	// incl. rates whose period is not a whole number of nanoseconds (the header must state 1/rate, not a rounded period)
+	rates := []float64{1000, 12500, 244140.625, 1e6, 3.3, 150000, 30000, 245760}
 	sc.Rate = rates[rng.Intn(len(rates))]
 	sc.Signed = rng.Intn(2) == 0
 	n := 4 + rng.Intn(24)
@@ -719,12 +745,19 @@ func wcRandom(rng interface{ Intn(int) int }, i int) *wcScen {
 			}
 		case x < 12:
 			st = wcStep{K: "req", Req: []string{"BOGUS", "", "STAR", "UNPAUSEX"}[rng.Intn(4)]}
+		case x < 14 && rng.Intn(4) == 0:
+			st = wcStep{K: "rmrun"}
 		case x < 14:
 			st = wcStep{K: "label", Label: []string{"A", "B", "STOP", "state 3"}[rng.Intn(4)]}
 		default:
 			st = wcStep{K: "block", Drop: 0, Len: 1 + rng.Intn(3*sc.Nsamp)}
 			for k := rng.Intn(3); k > 0; k-- {
 				st.Ext = append(st.Ext, 1)
+			}
+			if rng.Intn(12) == 0 { // a burst: more external triggers in one block than the file's write buffer holds
+				for k := 500 + rng.Intn(300); k > 0; k-- {
+					st.Ext = append(st.Ext, 1)
+				}
 			}
 			if rng.Intn(4) == 0 {
 				st.Drop = 1 + rng.Intn(5)
